@@ -56,6 +56,9 @@ func (fc *fctx) instr(ins ssa.Instruction) {
 			tr.store(a, et, u.zero(et))
 		}
 		fc.vals[x] = []*Val{mkVal(a, "Int", x.Type())}
+		if !tr.leaks(x) {
+			tr.protected = append(tr.protected, a)
+		}
 	case *ssa.Store:
 		fc.derefCheck(x.Addr, x.Pos())
 		et := x.Addr.Type().Underlying().(*types.Pointer).Elem()
@@ -912,6 +915,37 @@ func (fc *fctx) appendOp(cc *ssa.CallCommon, pos token.Pos) *Val {
 		tr.setComp(comp, ite(fits, ip, g))
 	}
 	res := mkSlice(rt, ite(fits, slPart(s, 0), a), ite(fits, slPart(s, 1), "0"), newLen, ite(fits, sc, newCap))
-	// appending nothing to a nil slice yields nil
-	return fc.name("app", res)
+	// the result is named as an opaque slice; its element view is stated with sla-triggers so that
+	// quantified facts about the operands (stated over sla(s, i)) connect to facts about the result
+	rn := tr.define(fc.prefix+"app", "Slice", res.E())
+	out := mkVal(rn, "Slice", rt)
+	for _, l := range leaves {
+		now := tr.cur.get(u, l.comp)
+		before := grown[l.comp]
+		dst := u.leafAddr("(sla "+rn+" j)", elemT, l.path)
+		src := u.leafAddr(u.sla(s, "j"), elemT, l.path)
+		u.sla(out, "0") // make sure sla is declared
+		if !tr.appendView {
+			continue
+		}
+		{
+			tr.fact(fmt.Sprintf("(forall ((j Int)) (! (=> (and (<= 0 j) (< j %s)) (= (select %s %s) (select %s %s))) :pattern ((sla %s j))))", sl, now, dst, before, src, rn))
+		}
+		if isNum(tl) {
+			var n int
+			fmt.Sscan(tl, &n)
+			for k := 0; k < n; k++ {
+				d := u.leafAddr("(sla "+rn+" "+add(sl, fmt.Sprint(k))+")", elemT, l.path)
+				sr := u.leafAddr(u.sla(t, fmt.Sprint(k)), elemT, l.path)
+				tr.fact(eq("(select "+now+" "+d+")", "(select "+before+" "+sr+")"))
+			}
+		} else {
+			d := u.leafAddr("(sla "+rn+" (+ "+sl+" j))", elemT, l.path)
+			sr := u.leafAddr(u.sla(t, "j"), elemT, l.path)
+			tr.fact(fmt.Sprintf("(forall ((j Int)) (! (=> (and (<= 0 j) (< j %s)) (= (select %s %s) (select %s %s))) :pattern ((sla %s j))))", tl, now, d, before, sr, slTermName(t)))
+		}
+	}
+	return out
 }
+
+func slTermName(v *Val) string { return v.E() }
